@@ -68,6 +68,18 @@ pub(crate) struct TransportedSender<Codec> {
     bytes_written: u64,
 }
 
+/// A sender in transport, serialized by reference.
+///
+/// This must serialize exactly like [TransportedSender].
+#[derive(Serialize)]
+#[serde(rename = "TransportedSender")]
+#[serde(bound(serialize = "Codec: codec::Codec"))]
+struct TransportedSenderRef<'a, Codec> {
+    bin_sender: &'a Option<bin::Sender>,
+    size_mode: &'a SizeMode<Codec>,
+    bytes_written: u64,
+}
+
 impl<Codec> Sender<Codec> {
     /// Creates a new sender.
     pub(super) fn new(bin_sender: bin::Sender, size_mode: SizeMode<Codec>) -> Self {
@@ -277,14 +289,17 @@ where
     where
         S: serde::Serializer,
     {
-        let bin_sender = self.bin_sender.lock().unwrap().take();
-        let size_mode = mem::replace(
-            &mut *self.size_mode.lock().unwrap(),
-            SizeMode::Known(0), // Placeholder, sender is consumed anyway
-        );
+        // The sender must stay intact, because a value may be serialized more than once,
+        // for example when it does not fit into a single buffer or when sending is retried.
+        let bin_sender = self.bin_sender.lock().unwrap();
+        let size_mode = self.size_mode.lock().unwrap();
 
-        TransportedSender::<Codec> { bin_sender, size_mode, bytes_written: self.bytes_written }
-            .serialize(serializer)
+        TransportedSenderRef::<Codec> {
+            bin_sender: &bin_sender,
+            size_mode: &size_mode,
+            bytes_written: self.bytes_written,
+        }
+        .serialize(serializer)
     }
 }
 
